@@ -58,6 +58,9 @@ def enum_operator_table():
         out.append((("binding_block", [("expr", ("call", ("member", ("ident", "a"), "setNext"), [a]))]), "arg:setNext:%s" % n))
         out.append((("binding_expr", ("sub", a, ("int", 0))), "subscript-obj:%s" % n))
         out.append((("binding_expr", ("sub", DYN["intlist"], a)), "subscript-idx:%s" % n))
+        out.append((("binding_block", [("decl", "let", [("l", None, DYN["intlist"])]), ("expr", ("assign", ("sub", ("ident", "l"), a), ("int", 1)))]), "subscript-write-idx:%s" % n))
+        out.append((("binding_block", [("decl", "let", [("l", None, DYN["intlist"])]), ("expr", ("assign", ("sub", ("ident", "l"), ("int", 0)), a))]), "subscript-write-val:%s" % n))
+        out.append((("binding_block", [("decl", "let", [("l", None, a)]), ("expr", ("assign", ("sub", ("ident", "l"), ("int", 0)), ("int", 1)))]), "subscript-write-obj:%s" % n))
         out.append((("binding_expr", ("array", [a, a])), "array2:%s" % n))
         for rn, r in REPS.items():
             if rn <= n:
